@@ -21,7 +21,7 @@ def _classes():
     return get_elements(private=True)
 
 
-def gen(eng, leaves: int, depth: int, symbols, allow_single_parallel: bool):
+def gen(eng, leaves: int, depth: int, symbols, allow_single_parallel: bool, open_branch: bool = False):
     from pyimpspec.circuit.series import Series
     from pyimpspec.circuit.parallel import Parallel
     classes = _classes()
@@ -50,6 +50,12 @@ def gen(eng, leaves: int, depth: int, symbols, allow_single_parallel: bool):
                 items.append(con(d - 1, "%s.%d" % (tag, i)))
             else:
                 items.append(element("%s.%d" % (tag, i)))
+        if open_branch and kind == 1 and n >= 2 and "opened" not in eng.scratch:
+            # an open path: a resistor whose value was set to infinity through the API (the circuit can still be simulated)
+            cand = [x for x in items[1:] + items[:1] if type(x).__name__ == "Resistor"]
+            if cand and eng.choice(2, tag + ".open") == 1:
+                eng.scratch["opened"] = True
+                cand[0].set_values(R=float("inf"))
         return (Series if kind == 0 else Parallel)(items)
     return con(depth, "c")
 
@@ -64,14 +70,21 @@ def _single_parallel(con) -> bool:
     return False
 
 
-def make_harness(leaves: int, depth: int, symbols, allow_single_parallel: bool, drawing: bool, plain: bool = False):
+def make_harness(leaves: int, depth: int, symbols, allow_single_parallel: bool, drawing: bool, plain: bool = False, open_branch: bool = False):
     def harness(eng):
         if plain:
             eng.scratch["labelled"] = 0
         from pyimpspec.circuit.circuit import Circuit
         import pyimpspec.circuit.diagrams  # noqa: F401  (attaches to_circuitikz / to_drawing)
-        con = gen(eng, leaves, depth, symbols, allow_single_parallel)
+        con = gen(eng, leaves, depth, symbols, allow_single_parallel, open_branch)
         circuit = Circuit(con)
+        if open_branch:
+            if "opened" not in eng.scratch:
+                raise PathAbort("no open path in this shape")
+            ok, z = call(circuit.get_impedances, [10.0, 1.0])
+            if not ok:
+                raise PathAbort("cannot be simulated")
+            eng.reached("open path, simulated")
         eng.note_input("cdc", circuit.to_string())
         nw = eng.real("node_width")
         nh = eng.real("node_height")
@@ -143,6 +156,9 @@ def obligations(tier: str):
                    bounds="every registered element type at the leaves of a connection of 1-2 items", functions=funcs,
                    expect_reach=["circuitikz", "exports"], max_paths=2000000, key=_key),
     ]
+    obs.append(Obligation("open", make_harness(3, 1, ["R", "C"], False, drawing=False, open_branch=True),
+                          bounds="nests of <= 3 resistors/capacitors, depth <= 2, in which one resistor of a parallel connection has R = inf (an open path; set through the API) "
+                                 "and the circuit can still be simulated", functions=funcs, expect_reach=["circuitikz", "exports", "open path, simulated"], max_paths=2000000, key=_key))
     for o in obs:
         o.replay = o.harness
     return obs
@@ -153,7 +169,7 @@ EXPLANATION = (
     "executed symbolically with node_width and node_height as positive z3 reals, so every layout comparison is a solver-decided branch; "
     "to_sympy, to_latex and to_drawing are executed concretely on every explored shape."
 )
-ASSUMPTIONS = ["default parameter values; labels 'x<n>' or none"]
+ASSUMPTIONS = ["default parameter values (obligation 'open': one resistor with R = inf); labels 'x<n>' or none"]
 OUTSIDE = ["shapes beyond the bound", "custom_labels, terminal labels", "rendering of the returned sources by LaTeX / matplotlib"]
 
 
